@@ -29,6 +29,8 @@ static rc::Gen<Op> c11_op()
 	    {1, op_gen(DRAIN, conn, zero(), zero(), zero(), zero(), zero(), no)},
 	    {1, rc::gen::apply([](int conn, int which) { Op o; o.kind = MSG; o.conn = conn; static const char *bad[] = {"}{", "[1,2", "nul", "{\"id\":1,\"method\":\"inf"}; o.s = bad[which % 4]; return o; }, conn, rng(0, 4))},
 	    {2, rc::gen::apply([](int nth, int err) { Op o; o.kind = FAULT; o.a = 0; o.b = nth; o.c = err; return o; }, rng(0, 2), rc::gen::element<int>(0, 1, 2, 3, 8, 9))}, // errno values accept(2) documents for a single failed attempt
+	    // a connection attempt that dies in accept() while a healthy one waits behind it in the same listen queue (d = 1: expanded by c11_gen)
+	    {2, rc::gen::apply([](int err, int transport, int nth) { Op o; o.kind = FAULT; o.a = 0; o.b = nth; o.c = err; o.d = 1 + transport; return o; }, rc::gen::element<int>(0, 9, 2), rng(0, 3), rng(0, 2))},
 	});
 }
 
@@ -48,6 +50,14 @@ static rc::Gen<Scenario> c11_gen()
 		{ Op o; o.kind = ADD; o.conn = 2; o.a = 1; o.b = -1; sc.ops.push_back(o); }
 		if (faulty_first >= 3) { Op o; o.kind = WPLAN; o.conn = 1; o.v = {faulty_first % 2 ? simk::W_EAGAIN : simk::W_ERR}; sc.ops.push_back(o); }
 		for (auto &o : ops) {
+			if (o.kind == FAULT && o.d > 0) {
+				// both attempts reach the same listening socket before the daemon runs again; the newest connection then asks for service
+				int t = o.d - 1; Op f = o; f.d = 0; sc.ops.push_back(f);
+				{ Op c1; c1.kind = CONNECT; c1.a = t; sc.ops.push_back(c1); }
+				{ Op c2; c2.kind = CONNECT; c2.a = t; c2.join = true; sc.ops.push_back(c2); }
+				{ Op g; g.kind = GET; g.conn = 0; g.b = 0; sc.ops.push_back(g); }
+				continue;
+			}
 			sc.ops.push_back(o);
 			Op g; g.kind = GET; g.conn = 0; g.b = 0; sc.ops.push_back(g);
 		}
